@@ -270,7 +270,7 @@ func init() {
 			"observer callback (TrialRunStarted, EpochEvaluated, TrialRunFinished) and in the middle of the epoch that follows an " +
 			"evaluation (ReproduceStart hook). The recorded call log of the instrumented evaluator / observer is checked by a trace " +
 			"checker of the protocol. evaluations = Execute runs. The experiment runner program of the repository is executed with and without its -trials override and the experiment it saves is read back. Fault-free patterns are also run on an Experiment whose Trials are pre-allocated and on one reused after a longer run. A case is non-trivial if it has >= 2 trials or a fault; all cases are distinct.",
-		Assumptions: []string{"population size 6..12, XOR start genome; the evaluator assigns fitness and fills the generation statistics as the shipped evaluators do"},
+		Assumptions: []string{"population size 6..12, XOR start genome; the evaluator assigns fitness and fills the generation statistics as the shipped evaluators do", "beyond the enumerated bounds a fixed PRNG-drawn list of 48 (quick) / 400 (thorough) runs of 5-40 trials x 5-35 generations, every other one with one fault", "the observer is the evaluator itself, a second object, a stateless value or a value with a field; half of the observers ask the running experiment for a progress report in their callbacks"},
 		Cases:       func(tier string) int { return len(c20Enumerate(tier)) },
 		Run:         runC20,
 		Exhaustive:  true,
